@@ -658,12 +658,22 @@ def rt_late_binding(req):
             b = _try(lambda: ev(sigtools.signature(getattr(e, nm))))
             if a != b:
                 problems.append('twin-differs: %s: postponed module gives %s, eager twin %s' % (nm, a, b))
+        # annotations that some library already resolved in place (f.__annotations__ = typing.get_type_hints(f)): objects, not
+        # source text, although the function was compiled with the future flag; they denote themselves
+        import typing
+        r5 = mod('verif_late_c', 'def f(x: int, *args, y: bytes = b"") -> str: return x\n')
+        r5.f.__annotations__ = typing.get_type_hints(r5.f)
+        for what, get in (('sigtools.signature', lambda: sigtools.signature(r5.f)), ('signatures.signature', lambda: signatures.signature(r5.f)),
+                          ('mask', lambda: signatures.mask(signatures.signature(r5.f), 0, 'y'))):
+            g = _try(lambda: ev(get()))
+            if g[0] != 'ok' or any(v not in (int, bytes, str) for _, v in g[1]):
+                problems.append('resolved-in-place: evaluated() of %s of a PEP 563 function whose __annotations__ hold objects -> %s' % (what, g))
         # one annotated contributor, either side
         for order in ((m.f, m.plain), (m.plain, m.f)):
             sg = _try(lambda: ev(signatures.merge(*[signatures.signature(o) for o in order])))
             if sg[0] != 'ok' or dict(sg[1]).get('x') is not str:
                 problems.append('merge-one-sided-annotation: merge(%s) evaluates to %s' % (', '.join(o.__name__ for o in order), sg))
-    return ('ok', tuple(problems[:6]), 'late_binding')
+    return ('ok', tuple(problems[:8]), 'late_binding')
 
 
 RT['late_binding'] = rt_late_binding
